@@ -44,19 +44,21 @@ func secReq(form, a, b string) (any, bool) {
 		return L{M{a: L{}, b: L{}}}, true
 	case "AorAnon":
 		return L{M{a: L{}}, M{}}, true
+	case "AnonOrB":
+		return L{M{}, M{b: L{}}}, true
 	}
 	panic(form)
 }
 
 var secGlobalForms = []string{"none", "A", "AorB"}
-var secOpForms = []string{"inherit", "public", "A", "B", "AorB", "AandB"}
+var secOpForms = []string{"inherit", "public", "A", "B", "AorB", "AandB", "AorAnon", "AnonOrB"}
 
 // SecurityCases: the small-configuration space of C11.
 func SecurityCases(seed int64, thorough bool) []Case {
 	rng := rand.New(rand.NewSource(seed*131 + 7))
 	var out []Case
 	pairs := [][2]string{{"bearer", "keyhdr"}, {"keyhdr", "keyqry"}, {"bearer", "keyqry"}, {"keyhdr", "keyhdr2"}, {"keyqry", "bearer"},
-		{"bearer", "basic"}, {"keyhdr", "oauth"}, {"cookie", "keyhdr"}, {"oidc", "bearer"}, {"keyqry", "keyqry"}, {"bearer", "bearer"}, {"bearercap", "keyhdr"}, {"keyqry", "bearercap"}}
+		{"bearer", "basic"}, {"keyhdr", "oauth"}, {"cookie", "keyhdr"}, {"oidc", "bearer"}, {"keyqry", "keyqry"}, {"bearer", "bearer"}, {"bearercap", "keyhdr"}, {"keyqry", "bearercap"}, {"basic", "bearer"}}
 	layouts := []string{"same-path", "two-paths", "var-path"}
 	id := 0
 	for pi, pr := range pairs {
